@@ -168,10 +168,18 @@ def render_stmt(stmt, top: str, mod, scope: str, ind: str) -> list[str]:
         return lines
     if t == "def":
         qual = f"{scope}.{stmt['name']}"
+        tag = f"{qual}#{stmt.get('serial', 0)}"
         lines = [f"{ind}@{d}" for d in stmt.get("decos", ())]
         ret = f" -> {stmt['returns']}" if stmt.get("returns") else ""
+        if stmt.get("deco"):
+            # an identity decorator that leaves its own tag on whatever it decorates
+            lines.append(f"{ind}def {stmt['name']}(o):")
+            lines.append(f'{ind}    """{tag}"""')
+            lines.append(f"{ind}    o._decos = getattr(o, '_decos', ()) + ({tag!r},)")
+            lines.append(f"{ind}    return o")
+            return lines
         lines.append(f"{ind}def {stmt['name']}({stmt.get('params', '')}){ret}:")
-        lines.append(f'{ind}    """{qual}#{stmt.get("serial", 0)}"""')
+        lines.append(f'{ind}    """{tag}"""')
         return lines
     if t == "val":
         qual = f"{scope}.{stmt['name']}"
@@ -206,7 +214,7 @@ def render_module(mod, top: str) -> str:
             lines[-1] = lines[-1] + "; " + new[0]
         else:
             lines += new
-    return "\n".join(lines) + "\n"
+    return ("\n".join(lines) + "\n").replace("$TOP", top)
 
 
 def render(case, top: str) -> dict[str, str]:
@@ -291,18 +299,29 @@ def _sim_module(case, mod, out: dict, paths: set, pkgs: set) -> dict:
         old = ns.get(name)
         if old is not None:
             events.append(f"{how}-over-{old['how']}")
-            if how == "wild" and info.get("origin") is not None and not info.get("helper") and old.get("origin") == info["origin"]:
-                same_module.add(name)  # a wildcard re-binds a name to the module it is already bound to
-        static = how if how != "wild" else (old["static"] if old else None)
-        ns[name] = {**info, "how": how, "static": static}
+        if how == "wild":
+            # `static`: how the name was bound before any wildcard expansion; `nwild`: wildcard re-bindings since then
+            static = old["static"] if old else None
+            static_origin = old["static_origin"] if old else None
+            nwild = (old["nwild"] if old else 0) + 1
+            if info.get("origin") is not None and not info.get("helper") and static_origin == info["origin"]:
+                same_module.add(name)  # a wildcard re-binds the name to the module an import statement bound it to
+        else:
+            static = how
+            static_origin = info.get("origin") if not info.get("helper") else None
+            nwild = 0
+        ns[name] = {**info, "how": how, "static": static, "static_origin": static_origin, "nwild": nwild}
 
-    for stmt in mod["body"]:
+    carried = ("origin", "helper", "kind", "node", "defmod")
+    for index, stmt in enumerate(mod["body"]):
         t = stmt["t"]
         if t in ("class", "def", "val"):
-            bind(stmt["name"], {"depth": 0, "chain": []}, "local")
+            kind = "deco" if stmt.get("deco") else t
+            bind(stmt["name"], {"depth": 0, "chain": [], "kind": kind, "node": stmt, "defmod": mod["path"], "index": index}, "local")
         elif t == "import":
             name = stmt.get("as") or "$TOP"
-            bind(name, {"depth": 1, "chain": [], "origin": stmt["mod"] if stmt.get("as") else ""}, "import")
+            origin = stmt["mod"] if stmt.get("as") else ""
+            bind(name, {"depth": 1, "chain": [], "origin": origin, "kind": "module", "index": index, "stmt": stmt}, "import")
             explicit.add(name)
         elif t == "from":
             src = out.get(stmt["mod"])
@@ -315,10 +334,10 @@ def _sim_module(case, mod, out: dict, paths: set, pkgs: set) -> dict:
                     if si is None:
                         sub = f"{stmt['mod']}.{n}" if stmt["mod"] else n
                         if sub in paths:  # a sub-module listed in the package's __all__
-                            bind(n, {"depth": 1, "chain": [], "origin": sub}, "wild")
+                            bind(n, {"depth": 1, "chain": [], "origin": sub, "kind": "module", "index": index}, "wild")
                         continue
-                    info = {"depth": si["depth"] + 1, "chain": [(stmt["mod"], n), *si["chain"]], "via": stmt["mod"]}
-                    for k in ("origin", "helper"):
+                    info = {"depth": si["depth"] + 1, "chain": [(stmt["mod"], n), *si["chain"]], "via": stmt["mod"], "index": index}
+                    for k in carried:
                         if k in si:
                             info[k] = si[k]
                     bind(n, info, "wild")
@@ -339,21 +358,21 @@ def _sim_module(case, mod, out: dict, paths: set, pkgs: set) -> dict:
                         dot_imported.add(n)  # `from . import sub` in an __init__ module
                     sub = f"{stmt['mod']}.{n}" if stmt["mod"] else n
                     if n == "__all__":
-                        bind(bound, {"depth": 1, "chain": [], "origin": stmt["mod"], "helper": True}, "from")
+                        bind(bound, {"depth": 1, "chain": [], "origin": stmt["mod"], "helper": True, "kind": "val", "index": index, "stmt": stmt}, "from")
                     elif src is not None and n in src["ns"]:
                         si = src["ns"][n]
-                        info = {"depth": si["depth"] + 1, "chain": [(stmt["mod"], n), *si["chain"]], "via": stmt["mod"]}
-                        for k in ("origin", "helper"):
+                        info = {"depth": si["depth"] + 1, "chain": [(stmt["mod"], n), *si["chain"]], "via": stmt["mod"], "index": index, "stmt": stmt}
+                        for k in carried:
                             if k in si:
                                 info[k] = si[k]
                         bind(bound, info, "from")
                     elif stmt["mod"] in pkgs and sub in paths:
-                        bind(bound, {"depth": 1, "chain": [], "origin": sub}, "from")
+                        bind(bound, {"depth": 1, "chain": [], "origin": sub, "kind": "module", "index": index, "stmt": stmt}, "from")
         elif t == "all":
             if stmt["op"] == "=":
                 has_all = True
                 all_items = []
-                bind("__all__", {"depth": 0, "chain": []}, "local")
+                bind("__all__", {"depth": 0, "chain": [], "kind": "val", "index": index}, "local")
             for it in stmt["items"]:
                 if isinstance(it, str):
                     all_items.append(it)
@@ -370,9 +389,14 @@ def _sim_module(case, mod, out: dict, paths: set, pkgs: set) -> dict:
                         origin = ns[ref].get("origin")
                     if origin is not None and out.get(origin) and out[origin]["exports"] is not None:
                         all_items += out[origin]["exports"]
-    # names bound by an explicit import alias that a later wildcard import re-binds (see known finding
-    # `stale-alias-after-wildcard-override`)
-    tainted = {n for n, i in ns.items() if i["how"] == "wild" and i["static"] in ("from", "import")}
+    # names whose member object is replaced by wildcard expansion in a way that leaves already-resolved aliases stale:
+    # bound by an import statement and re-bound by a later wildcard, or defined locally and re-bound by two later
+    # wildcards (see known finding `stale-alias-after-wildcard-override`)
+    tainted = {
+        n
+        for n, i in ns.items()
+        if i["how"] == "wild" and (i["static"] in ("from", "import") or (i["static"] == "local" and i["nwild"] >= 2))
+    }
     return {
         "ns": ns,
         "exports": list(dict.fromkeys(all_items)) if has_all else None,
@@ -525,7 +549,8 @@ KNOWN_STEERING = ("stale-alias-after-wildcard-override", "dot-import-submodule-n
 
 @st.composite
 def packages(draw, max_mods: int = 6, max_stmts: int = 6, allow_join: bool = False, all_forms: bool = True,
-             class_bodies: bool = True, avoid: frozenset = frozenset(), on_excluded=None):
+             class_bodies: bool = True, avoid: frozenset = frozenset(), on_excluded=None, wild_plain_only: bool = False,
+             deco_defs: bool = False, weights: tuple = (4, 7, 9, 10, 11)):
     """Package models of profile `importable`. `avoid`: slugs of known findings to steer away from (by construction);
     `on_excluded(slug)` is called each time a choice is restricted because of one."""
     tree = draw(trees(2, max_mods))
@@ -573,6 +598,8 @@ def packages(draw, max_mods: int = 6, max_stmts: int = 6, allow_join: bool = Fal
                         sub.append(one)
                 return {"t": "class", "name": name, "serial": serial[0], "body": sub}
             if kind == "def":
+                if deco_defs and draw(st.booleans()):
+                    return {"t": "def", "name": name, "serial": serial[0], "deco": True}
                 return {"t": "def", "name": name, "serial": serial[0], "params": draw(st.sampled_from(PARAMS))}
             return {"t": "val", "name": name, "serial": serial[0]}
 
@@ -599,12 +626,15 @@ def packages(draw, max_mods: int = 6, max_stmts: int = 6, allow_join: bool = Fal
             out = []
             cur = _sim_module(case, mod, sim, path_set, pkg_set)["ns"] if avoid_same else {}
             for src in sources:
+                if wild_plain_only and is_pkg[src]:
+                    continue
                 exported = set(exported_names(src))
                 if exported & own_children:
                     continue
                 if avoid_same and any(
-                    n in cur and cur[n].get("origin") is not None and not cur[n].get("helper")
-                    and sim[src]["ns"].get(n, {}).get("origin") == cur[n]["origin"]
+                    n in cur and cur[n]["static_origin"] is not None
+                    and not sim[src]["ns"].get(n, {}).get("helper")
+                    and sim[src]["ns"].get(n, {}).get("origin") == cur[n]["static_origin"]
                     for n in exported
                 ):
                     excluded("wildcard-rebinding-same-module-skipped")
@@ -617,15 +647,17 @@ def packages(draw, max_mods: int = 6, max_stmts: int = 6, allow_join: bool = Fal
 
         n_stmts = draw(st.integers(0, max_stmts))
         for _ in range(n_stmts):
-            roll = draw(st.integers(0, 10)) if sources else 0
-            if 4 <= roll <= 6:  # wildcard
+            # weights: cumulative thresholds for (local definition, wildcard, from-import, from-import of a sub-module,
+            # import a.b [as c])
+            roll = draw(st.integers(0, weights[4] - 1)) if sources else 0
+            if weights[0] <= roll < weights[1]:  # wildcard
                 wsrc = wildcard_sources()
                 if not wsrc:
                     body.append(local_stmt())
                     continue
                 src = _pick_recent(draw, wsrc)
                 body.append({"t": "from", "mod": src, "level": _pick_level(draw, path, is_pkg[path], src), "names": "*"})
-            elif 7 <= roll <= 8:  # explicit from-import of objects
+            elif weights[1] <= roll < weights[2]:  # explicit from-import of objects
                 src = _pick_recent(draw, sources)
                 names = importable(src)
                 if not names:
@@ -634,7 +666,7 @@ def packages(draw, max_mods: int = 6, max_stmts: int = 6, allow_join: bool = Fal
                 chosen = draw(st.lists(st.sampled_from(names), min_size=1, max_size=3, unique=True))
                 pairs = [[n, draw(st.sampled_from(OBJ_NAMES)) if draw(st.integers(0, 2)) == 2 else None] for n in chosen]
                 body.append({"t": "from", "mod": src, "level": _pick_level(draw, path, is_pkg[path], src), "names": pairs})
-            elif roll == 9:  # from <package> import <submodule> [as z]
+            elif weights[2] <= roll < weights[3]:  # from <package> import <submodule> [as z]
                 subs = [s for s in sources if s != ""]
                 if not subs:
                     body.append(local_stmt())
@@ -647,7 +679,7 @@ def packages(draw, max_mods: int = 6, max_stmts: int = 6, allow_join: bool = Fal
                     excluded("dot-import-submodule-not-exposed")
                     level = 0
                 body.append({"t": "from", "mod": pkg, "level": level, "names": [[base_name(sub), asname]]})
-            elif roll == 10:  # import a.b [as z]
+            elif weights[3] <= roll < weights[4]:  # import a.b [as z]
                 src = draw(st.sampled_from(sources))
                 asname = draw(st.sampled_from(OBJ_NAMES)) if draw(st.booleans()) else None
                 body.append({"t": "import", "mod": src, "as": asname})
